@@ -564,8 +564,25 @@ theorem cframe_upAfter {b : BState} {n : Nat} (b0 : BState) (i id : Nat) (uw : O
 
 theorem cframe_mgetNext {b : BState} {n : Nat} (b0 : BState) (i : Nat) (ks : List Nat) (acc : List (Option Nat))
     (iter : Bool) (h : CFrame b b0 n) : CFrame b (mgetNext b0 i ks acc iter) n := by
-  rcases mgetNext_spec b0 i ks acc iter with ⟨out, e⟩ | ⟨k, rest, _, _, e⟩ <;> rw [e]
+  rcases mgetNext_spec b0 i ks acc iter with ⟨out, e⟩ | ⟨k, rest, _, e⟩ <;> rw [e]
   · exact cframe_finish b0 i _ h
+  · exact cframe_set b0 i _ h
+
+theorem cframe_mgetStart {b : BState} {n : Nat} (b0 : BState) (i : Nat) (ks : List Nat) (iter : Bool)
+    (h : CFrame b b0 n) : CFrame b (mgetStart b0 i ks iter) n := by
+  rcases mgetStart_spec b0 i ks iter with ⟨_, _, e⟩ | ⟨_, e⟩ <;> rw [e]
+  · exact cframe_finish b0 i _ h
+  · exact cframe_set b0 i _ h
+
+/-- a load of the shutdown flag inside a multi-key read counts nothing — also when it finds the flag set and the `get`
+    answers `None` without a lookup -/
+theorem cframe_mgetFlagAct {b : BState} {n : Nat} (b0 : BState) (i : Nat) (outer : Bool) (ks : List Nat)
+    (acc : List (Option Nat)) (iter : Bool) (h : CFrame b b0 n) : CFrame b (mgetFlagAct b0 i outer ks acc iter) n := by
+  rcases mgetFlagAct_spec b0 i outer ks acc iter with ⟨_, e⟩ | ⟨_, _, _, _, _, e⟩ | ⟨_, _, _, _, _, e⟩ |
+    ⟨_, _, _, _, _, e⟩ <;> rw [e]
+  · exact cframe_finish b0 i _ h
+  · exact cframe_set b0 i _ h
+  · exact cframe_mgetNext b0 i _ _ _ h
   · exact cframe_set b0 i _ h
 
 /-- What one action of client `i` does to the quantities of `StatB`, position by position: either it is one of the
@@ -588,13 +605,14 @@ theorem clientAct_cstat {b b' : BState} {i : Nat} {o o' : Oracle} (h : clientAct
         all_goals first
           | exact Or.inr (cframe_finish b i _ (CFrame.refl b))
           | exact Or.inr (cframe_set b i _ (CFrame.refl b))
+          | exact Or.inr (cframe_mgetStart b i _ _ (CFrame.refl b))
       · cases r <;> simp only [] at h
         · split at h
           all_goals simp only [Except.ok.injEq, Prod.mk.injEq] at h; obtain ⟨rfl, rfl⟩ := h
           · exact Or.inr (cframe_finish b i _ (CFrame.refl b))
           · exact Or.inr (cframe_set b i _ (CFrame.refl b))
         all_goals simp only [Except.ok.injEq, Prod.mk.injEq] at h; obtain ⟨rfl, rfl⟩ := h
-        case mget ks iter => exact Or.inr (cframe_mgetNext b i ks [] iter (CFrame.refl b))
+        case mget ks iter => exact Or.inr (cframe_mgetStart b i ks iter (CFrame.refl b))
         all_goals exact Or.inr (cframe_set b i _ (CFrame.refl b))
     | putPresent k v w ttl =>
       simp only [] at h
@@ -735,6 +753,9 @@ theorem clientAct_cstat {b b' : BState} {i : Nat} {o o' : Oracle} (h : clientAct
         simp only [Except.ok.injEq, Prod.mk.injEq] at h; obtain ⟨rfl, rfl⟩ := h
         exact Or.inr (cframe_mgetNext _ i _ _ _ ⟨rfl, rfl, poolAdd_gstat hp⟩)
       · cases h
+    | mgetFlag outer ks acc iter =>
+      simp only [Except.ok.injEq, Prod.mk.injEq] at h; obtain ⟨rfl, rfl⟩ := h
+      exact Or.inr (cframe_mgetFlagAct b i _ _ _ _ (CFrame.refl b))
     | _ => exact Or.inl rfl
 
 theorem lookupDelta_of {b : BState} {i : Nat} {pc : CPc} (h : b.cl[i]? = some pc) : lookupDelta b i = pc.lookN := by
